@@ -179,9 +179,11 @@ pub fn verify(input: &Value) -> Out {
         }
     }
     let d = Distinfo::from_bytes(&text);
+    // (both outcomes are tuples tagged with a string: TLC's equality is typed, and a record compared
+    // with a tuple - which is what a wrong outcome used to be - stops TLC instead of being unequal)
     let found = match d.find_entry(&full) {
-        Ok(e) => json!([path_bytes(&e.filename)]),
-        Err(e) => json!({"err": err_json(&e)}),
+        Ok(e) => json!(["found", path_bytes(&e.filename)]),
+        Err(e) => json!(["err", err_json(&e)]),
     };
     let size = match d.verify_size(&full) {
         Ok(n) => json!(["Ok", codes(&format!("{}", n))]),
